@@ -55,6 +55,7 @@ class Query:
     order_by: list[Order] = dataclasses.field(default_factory=list)
     limit: int | None = None
     offset: int | None = None
+    is_summarized: bool = False
 
 
 class SqlImpl(TableImpl):
@@ -436,7 +437,8 @@ class SqlImpl(TableImpl):
             query.select += nd.uuids
 
         elif isinstance(nd, verbs.Filter):
-            if query.group_by:
+            # after a summarize (also an ungrouped one), predicates act on the aggregated rows
+            if query.group_by or query.is_summarized:
                 query.having.extend(nd.predicates)
             else:
                 query.where.extend(nd.predicates)
@@ -453,6 +455,7 @@ class SqlImpl(TableImpl):
             query.select = [col._uuid for col in query.partition_by] + nd.uuids
             query.partition_by = []
             query.order_by.clear()
+            query.is_summarized = True
 
         elif isinstance(nd, verbs.SliceHead):
             if query.limit is None:
